@@ -756,8 +756,9 @@ def evaluate(lang: str, ea: dict, eb: dict, res: dict, what_pair: str) -> typing
     if not diff:
         if rc != 0:
             if guard:
-                named = sorted({k for _, s in guard for k in keys if names_option(s, k)})
-                out.append((f"{lang}|identical-fails|guard-assertion:{'+'.join(named) or '?'}", "identical option sets rejected by the option guard: " + tail))
+                named = sorted({k for _, st_ in guard for k in keys if names_option(st_, k)})
+                for k in named or ["?"]:
+                    out.append((f"{lang}|identical-fails|guard-assertion:{k}", "identical option sets rejected by the option guard: " + tail))
             elif re.search(r"NUNAVUT_SUPPORT_LANGUAGE_OPTION|support::options|namespace 'options'|options::", err):
                 out.append((f"{lang}|identical-fails|guard-symbol-missing", "identical option sets do not compile (guard symbol): " + tail))
             else:
